@@ -146,6 +146,21 @@ func (a *Analysis) entryContexts(fn *ssa.Function) []*Ctx {
 	return out
 }
 
+// valueRulesOf names the value-based rules that rest on the evaluation with this cache key.
+func (a *Analysis) valueRulesOf(key string) []string {
+	switch {
+	case hasKey(key, a.API[a.NME]...):
+		return []string{"L1"}
+	case hasKey(key, a.API[a.NM]...):
+		return []string{"L1n", "F3c"}
+	case hasKey(key, a.API[a.CM]...), hasKey(key, a.IMV):
+		return []string{"L2", "L2w"}
+	case hasKey(key, a.API[a.MTS]...):
+		return []string{"F2"}
+	}
+	return nil
+}
+
 // ruleP: no panic, no out-of-range, no division by zero, no bad shift/conversion/make,
 // no nil-map write, every loop terminates — in every context of every exported function.
 func (a *Analysis) ruleP() {
@@ -225,8 +240,16 @@ func (a *Analysis) ruleP() {
 	r.Counts["P.contexts"] = nctx
 	r.Counts["P.exported"] = len(a.Exported)
 	// F4 / E1 findings the evaluator met on the way
-	for _, e := range a.evals {
+	for key, e := range a.evals {
 		for _, ev := range e.Events {
+			if ev.Rule == "U" && ev.Instr != nil {
+				// the evaluation lost track of a write: what the value-based rules concluded from
+				// it is not reliable
+				for _, rule := range a.valueRulesOf(key) {
+					r.Add(rule, "eval/"+instrKey(ev.Instr), a.P.InstrPos(ev.Instr), e.Ctx.Name, Undecided, "%s", ev.Msg)
+				}
+				continue
+			}
 			if ev.Instr != nil && a.SwapStores[ev.Instr] {
 				continue // an explicit swap of the randomness source, classified by F3b
 			}
